@@ -176,7 +176,7 @@ class CacheHarness(thrx.Harness):
     settings['MAX_CACHE_SIZE'] = p.get('max_cache') or INF
     settings['USE_FLOW_CONTROL'] = bool(p.get('flow'))
     settings['MIN_TIMESTAMP_LAG'] = p.get('lag', 0)
-    env.apply_daemon_cache_limits(settings)
+    env.apply_daemon_cache_limits(settings, p.get('conf_variant', 'base'))
     self.hard_max = self.property_hard_max()
     import carbon.cache
     from carbon import events
@@ -530,6 +530,8 @@ def explore_job(job):
 def run_jobs(ctx, jobs, prop, required=('store_overlaps_drain', 'nonempty_drain')):
   """jobs: list of (params, (preemptions, faults)).  Aggregates into ctx; returns merged stats."""
   jobs = core.seeded_order(jobs, ctx.seed)
+  from . import daemonconf
+  daemonconf.prefetch([(j[0].get('max_cache') or INF, bool(j[0].get('flow')), j[0].get('conf_variant', 'base')) for j in jobs])
   # phase 1: small jobs run whole; big jobs (>= 2 preemptions) are only planned (root expanded into subtrees)
   def is_big(j):
     return j[1][0] >= 2
